@@ -112,6 +112,7 @@ func runC16(cx *Ctx, r *Report) {
 	cx.feeTaxBounded(r)
 	// ---------------- (7) a failed parameter lookup is not used as if it had succeeded
 	cx.paramLookupErrors(r)
+	cx.paramNarrowing(r, "param-amount-not-narrowed")
 	// ---------------- (7b) no constant index into a stored list on a block-handler path (shared with C13)
 	cx.recordListIndexRule(r, "abort-class-index")
 	// ---------------- (8) parameter getters hand out what is stored
@@ -1319,4 +1320,52 @@ func (cx *Ctx) partOfParams(m string, nt *types.Named) bool {
 		return false
 	}
 	return rec(params, 0)
+}
+
+// paramNarrowing (param-amount-not-narrowed): a panicking narrowing conversion -
+// math.Int.Int64 / Uint64, LegacyDec.TruncateInt64 / RoundInt64 abort when the value does
+// not fit 64 bits - is not applied to a value computed from a stored parameter. Amount
+// parameters (fees, deposits, limits) are validated for sign only: a governance update to
+// a large but valid amount would make every handler that passes this conversion panic.
+func (cx *Ctx) paramNarrowing(r *Report, rule string) int {
+	var roots []*ssa.Function
+	for _, e := range cx.EntriesOf("msg", "abci", "ante", "callback", "hook") {
+		roots = append(roots, e.Fn)
+	}
+	reach := cx.Reachable(roots, nil)
+	fromParams := func(v ssa.Value, _ []*ssa.Call) bool {
+		n := namedOf(v.Type())
+		if n == nil || n.Obj().Pkg() == nil || n.Obj().Name() != "Params" || !strings.HasPrefix(n.Obj().Pkg().Path(), modPrefix) {
+			return false
+		}
+		switch v.(type) {
+		case *ssa.Call, *ssa.Extract, *ssa.Parameter:
+			return true
+		}
+		return false
+	}
+	n := 0
+	for _, f := range reach.Order {
+		if f.Blocks == nil || !isIrismodFunc(f) || !isConsensusCode(cx, f) {
+			continue
+		}
+		for _, b := range f.Blocks {
+			for _, ins := range b.Instrs {
+				c, ok := ins.(*ssa.Call)
+				if !ok || c.Common().IsInvoke() || len(c.Common().Args) == 0 {
+					continue
+				}
+				pkg, name := calleeName(c.Common())
+				if pkg != "cosmossdk.io/math" || !(name == "Int.Int64" || name == "Int.Uint64" || name == "LegacyDec.TruncateInt64" || name == "LegacyDec.RoundInt64" || name == "Uint.Uint64") {
+					continue
+				}
+				n++
+				if cx.newSlicer(fromParams, false).derives(c.Common().Args[0], nil, -1) {
+					r.violate(rule, moduleOf(funcPkgPath(f))+"|"+shortFn(f)+"|"+name, cx.P.Pos(c.Pos()), name+" in "+shortFn(f)+" narrows a value computed from the module's stored parameters to 64 bits and panics when it does not fit: an accepted (sign-checked only) amount parameter above 2^63 makes the handlers on this path abort ("+reach.Path(f)+")")
+				}
+			}
+		}
+	}
+	r.ok(rule, "scan", "", fmt.Sprintf("%d panicking 64-bit narrowings on handler paths, none of a parameter-derived value", n))
+	return n
 }
